@@ -108,6 +108,7 @@ fn main() {
                 "instantiate" => probe::instantiate_period(&model),
                 "derive" => probe::derive(&model),
                 "denom" => probe::denom(&model),
+                "protocfg" => probe::protocfg(&model),
                 "paginate" => probe::paginate(&model),
                 "batchquery" => probe::batchquery(&model),
                 other => serde_json::json!({"reproduced": false, "error": format!("unknown probe {other}")}),
